@@ -240,7 +240,16 @@ func VerifHarness_C10_Extension() {
 			want = append(want, ext)
 		}
 	}
-	got, err := Extension(verifCtx(), system.Collection{el}, verifLit(system.String(u)))
+	arg := verifLit(system.String(u))
+	input := system.Collection{el}
+	if verifrt.NondetBool("emptyUrl") {
+		// extension({}) = extension.where(url = {}): nothing is selected, whatever the input (an empty one included)
+		arg, want = &expr.LiteralExpression{}, nil
+		if verifrt.NondetBool("emptyInput") {
+			input = system.Collection{}
+		}
+	}
+	got, err := Extension(verifCtx(), input, arg)
 	ok := err == nil && len(got) == len(want)
 	for i := 0; ok && i < len(got); i++ {
 		ok = got[i] == want[i]
